@@ -1508,6 +1508,69 @@ def table(ctx):
     ctx.sample({'kind': 'T-tab', 'cell': [cs[40][0], cs[40][1], str(cs[40][2])], 'model': vals[40]})
 
 
+def stack_probes(ctx):
+    """container forms OUTSIDE the constructor model: the items arrive inside ONE ndarray -- a 3-D stack np.stack([...]) (what np.load of a
+    logged trajectory gives) or a 1-D object array of matrices.  Decided without any model, by the property itself: either the constructor
+    raises, or every element of the returned object is a member and no supplied item was invalid (no None element, no partially built object)."""
+    rng = ctx.rng
+    for c in ('cSO2', 'cSE2', 'cSO3', 'cSE3', 'cUQ', 'cTw2', 'cTw3'):
+        items, _extra = seq_items(c)
+        nat = [it for it in items if accepts_native(c, it[0])]
+        good = [it for it in nat if it[1] == 'Valid']
+        if not good:
+            continue
+        combos = [[g] for g in good[:1]] + [[good[0], good[-1]]]
+        for bad in [it for it in nat if it[1] != 'Valid']:
+            if bad[0] != good[0][0]:
+                continue                     # np.stack needs one shape
+            for pos in range(3):
+                l = [good[0]] * 3
+                l[pos] = bad
+                combos.append(l)
+            combos.append([bad, bad])
+            combos.append([bad])
+        for l in combos:
+            if any(it[0] != l[0][0] for it in l):
+                continue
+            for form in ('stack',):       # (a 1-D object array of matrices is read by SE3 as a symbolic translation vector: outside the domain)
+                for r in range(ctx.n(2, 6)):
+                    arrays = [make_item(rng, c, sh, t) for sh, t in l]
+                    if form == 'stack':
+                        arg = np.stack(arrays)
+                    else:
+                        arg = np.empty(len(arrays), dtype=object)
+                        for k_, a_ in enumerate(arrays):
+                            arg[k_] = a_
+                    ctx.case(('stack', c, form, tuple(l), r), nontrivial=(r == 0))
+                    ctx.count('oracle:ctor-ndarray-container')
+                    try:
+                        with np.errstate(all='ignore'):
+                            obj = CLS[c](arg)
+                    except Exception:  # noqa: rejecting the whole argument is what the property asks for when an item is invalid
+                        ctx.count('oracle:ctor-ndarray-container:rejected')
+                        continue
+                    data = getattr(obj, 'data', None)
+                    reasons = []
+                    if not isinstance(obj, CLS[c]) or not isinstance(data, list):
+                        reasons.append('no-data-list')
+                    else:
+                        for el in data:
+                            if el is None:
+                                reasons.append('holds-None')
+                            elif not isinstance(el, np.ndarray):
+                                reasons.append('holds-non-array')
+                            elif member(c, el) != 'member':
+                                reasons.append('holds-' + str(member(c, el)))
+                        # (an object whose elements are all members is fine even if an item was invalid: SO2(<1x2x2 array>) reads the
+                        #  entries as four ANGLES -- the argument was reinterpreted, no non-member is held)
+                    for reason in sorted(set(reasons)):
+                        ctx.fail(f"oracle:ctor:{CLS[c].__name__}:ndarray-{form}:{reason}",
+                                 f"{CLS[c].__name__}(<{form} of {len(l)} items {[t for _sh, t in l]}>) returned an object: {reason}; "
+                                 f"data = {[None if e is None else getattr(e, 'shape', type(e).__name__) for e in (data or [])]}",
+                                 {'class': CLS[c].__name__, 'form': form, 'items': [[list(sh), t] for sh, t in l],
+                                  'arrays_hex': [hexes(a) for a in arrays]})
+
+
 # =====================================================================================================
 # T-tab + oracle, part 3: values that arrive as objects -- list mutators and the constructor given an object
 # =====================================================================================================
@@ -1728,6 +1791,7 @@ def run(ctx):
     with ctx.timed('table'):
         table(ctx)
         table_objects(ctx)
+        stack_probes(ctx)
     with ctx.timed('oracle'):
         oracle_pred(ctx)
         oracle_dtypes(ctx)
